@@ -415,6 +415,17 @@ static void family_format(void) {
         evals++; check_init("init_numb-bigtie", -up, up, -(m + 1), 5, &nontriv);
         evals++; check_init("init_numb-bigtie", 3.0 * pow(10.0, m + 2), dn, -(m + 1), 5, &nontriv);
     } }
+    /* every decimal exponent: two significant digits of 1.5, 9.96 (carry into the next power) and 1.0 x 10^e, exact and with su */
+    for (e = -300; e <= 300; e++, idx++) {
+        static const double lead[] = { 1.5, 9.96, 1.0, 9.949999 };
+        if (idx % NW != WK) continue;
+        for (i = 0; i < 4; i++) {
+            double x = lead[i] * pow(10.0, e);
+            evals++; check_init("init_numb-exponent", x, 0.0, 1 - e, 5, &nontriv);
+            evals++; check_init("init_numb-exponent", -x, x / 7.0, 1 - e, 0, &nontriv);
+            evals++; check_auto("autoinit_numb-exponent", x, x / 300.0, 19, &nontriv);
+        }
+    }
     for (i = 0; i < sizeof classics / sizeof classics[0]; i++) for (j = 1; j < sizeof sus / sizeof sus[0]; j++) for (k = 0; k < sizeof rules / sizeof rules[0]; k++, idx++) {
         if (idx % NW != WK) continue;
         evals++; check_auto("autoinit_numb", classics[i], sus[j], rules[k], &nontriv);
